@@ -524,7 +524,69 @@ func checkC08Raw(c C08RawCase) error {
 	if rb.Failed() != rv.Failed() || rb.Out != rv.Out {
 		return fmt.Errorf("%s gives %v but %s gives %v: the spacing changed the value", q(tb["main"]), rb, q(tv["main"]), rv)
 	}
+	// the same spelling with every number literal replaced by a variable that holds the number: the
+	// tree is the same, so the value is
+	lp, lits := c08LiteralsToVars(c.Pattern)
+	if len(lits) > 0 {
+		ctx2 := map[string]interface{}{}
+		for k, v := range ctx {
+			ctx2[k] = v
+		}
+		for k, v := range lits {
+			ctx2[k] = v
+		}
+		tl := c08RawSrc(lp, c.Variant, c.Pos)
+		rl := render(newEngine(tl), "main", ctx2)
+		if rl.Panic != "" {
+			return fmt.Errorf("panic: %v", rl)
+		}
+		if rl.Failed() != rv.Failed() || rl.Out != rv.Out {
+			return fmt.Errorf("%s gives %v but %s with %v gives %v: a literal and a variable holding the same number differ", q(tv["main"]), rv, q(tl["main"]), lits, rl)
+		}
+	}
 	return nil
+}
+
+// c08LiteralsToVars replaces the decimal literals of a pattern (outside quotes, not part of a name)
+// by variables L0, L1, ... and returns their values.
+func c08LiteralsToVars(p string) (string, map[string]int) {
+	var b strings.Builder
+	lits := map[string]int{}
+	var quote byte
+	for i := 0; i < len(p); {
+		ch := p[i]
+		if quote != 0 {
+			if ch == quote {
+				quote = 0
+			}
+			b.WriteByte(ch)
+			i++
+			continue
+		}
+		if ch == '\'' || ch == '"' {
+			quote = ch
+			b.WriteByte(ch)
+			i++
+			continue
+		}
+		prevName := i > 0 && (p[i-1] == '_' || p[i-1] >= 'a' && p[i-1] <= 'z' || p[i-1] >= 'A' && p[i-1] <= 'Z' || p[i-1] >= '0' && p[i-1] <= '9')
+		if ch >= '0' && ch <= '9' && !prevName {
+			j := i
+			n := 0
+			for j < len(p) && p[j] >= '0' && p[j] <= '9' {
+				n = n*10 + int(p[j]-'0')
+				j++
+			}
+			name := fmt.Sprintf("L%d", len(lits))
+			lits[name] = n
+			b.WriteString(name)
+			i = j
+			continue
+		}
+		b.WriteByte(ch)
+		i++
+	}
+	return b.String(), lits
 }
 
 var c08RawPatterns = []string{"-\u00b75|abs", "-\u00b7a|abs", "+\u00b75|abs", "-\u00b75\u00b7|\u00b7abs", "-\u00b75\u00b7+\u00b73", "3\u00b7-\u00b7-\u00b75", "3\u00b7+\u00b7-\u00b75|abs", "-\u00b7a\u00b7*\u00b7-\u00b7b",
@@ -534,7 +596,7 @@ var c08RawPatterns = []string{"-\u00b75|abs", "-\u00b7a|abs", "+\u00b75|abs", "-
 // TestC08RawSpacing: whitespace between a sign and its operand, and around postfix filters,
 // never changes the value (no claim about which value it is).
 func TestC08RawSpacing(t *testing.T) {
-	r := NewRec(t, "C08", "exhaustive: 26 spellings with signs next to literals, variables, postfix filters, indexes and other operators; at every marked place each of {nothing, space, newline, two spaces} (all places alike, and each place alone), in print / if / set position; oracle: same result as with single spaces everywhere; non-trivial = always")
+	r := NewRec(t, "C08", "exhaustive: 26 spellings with signs next to literals, variables, postfix filters, indexes and other operators; at every marked place each of {nothing, space, newline, two spaces} (all places alike, and each place alone), in print / if / set position; oracle: same result as with single spaces everywhere, and the same result when every number literal is replaced by a variable holding that number; non-trivial = always")
 	defer r.Flush()
 	r.SetExhaustive()
 	for _, p := range c08RawPatterns {
